@@ -27,9 +27,9 @@ LEAN_AUDIT = "Dashu.Audit.C11"
 # the powi error bound builds on builder-float's C03 contracts (Dashu/Proofs/Float, imported read-only); it is kept
 # in a module of its own so that Props/C11 never depends on them
 GEN_PROPS = ["Dashu.Props.C11Powi", "Dashu.Props.C11Formulas", "Dashu.Props.C11Float", "Dashu.Props.C11Series",
-             "Dashu.Props.C11Gen"]
+             "Dashu.Props.C11Gen", "Dashu.Props.C11Link"]
 GEN_AUDIT = ["Dashu.Audit.C11Powi", "Dashu.Audit.C11Formulas", "Dashu.Audit.C11Float", "Dashu.Audit.C11Series",
-             "Dashu.Audit.C11Gen"]
+             "Dashu.Audit.C11Gen", "Dashu.Audit.C11Link"]
 # Tie A (round 5): lean/Dashu/Gen/TransPrec.lean is regenerated from float/src/{exp,log,fbig}.rs on every run
 # (vlib/extract.py gen_trans_prec -> vlib/extract_transprec.py); Props/C11Gen proves the model's precision formulas equal to it
 USES_GEN = True
@@ -1183,6 +1183,9 @@ THEOREMS = [
     "Dashu.Props.C11Gen.powiWorkPrec_gen",
     "Dashu.Props.C11Gen.powiNegPrec_gen",
     "Dashu.Props.C11Gen.fSubUlp_gen",
+    "Dashu.Props.C11Link.stop_test_is_code_abs_cmp",
+    "Dashu.Props.C11Link.stop_test_is_code_cmp",
+    "Dashu.Props.C11Link.stop_test_value_iff",
 ]
 
 REFINED = ["Context::exp_internal entry guards (assert_finite, assert_limited_precision, zero shortcut)",
@@ -1254,7 +1257,13 @@ FRONTIER = ["that the certificate succeeds on every input (i.e. that the heurist
             "Tie A does not cover the statements that are wholly inside an f32 estimate (no_scaling, too_large, int_digits, "
             "powf arg_digits / ln_base_ub / arg_log2, ln's `s` from log2_bounds): they are fields of the oracle Est, replicated "
             "bit-exactly in Driver/TransEst.lean and tied by text (tie.formula) and by the digit-for-digit run only",
-            "FBig comparison inside the stop tests (abs_cmp, <) is at specification (value order; C14 proves the code's comparison), "
+            "FBig comparison inside the stop tests (abs_cmp, <) is written at specification (value order) in the mirror; round 8: "
+            "LINKED to C14's proved kernel (Props/C11Link.stop_test_is_code_abs_cmp, stop_test_is_code_cmp: the decision "
+            "`abs_cmp(increase, sub_ulp) != Greater` of exp_internal / ln_internal and `increase < sub_ulp` of iacoth is the same "
+            "when C14's model of repr_cmp_same_base::<B, ABS> (cmp.rs, shortcuts + estimate oracle) is evaluated on the same "
+            "operands, for every sound oracle; hypotheses: increase > 0 (abs_cmp; != 0 for <) and C14's precision invariant "
+            "PrecOK of increase, which is NOT derived from the mirrored loop here (for ln's atanh loop with z < 0 the increase is "
+            "negative: not covered by the abs_cmp link); the model def executed by the driver still calls reprAbsCmp / reprCmp. "
             "IBig::div_rem_euclid is Int.ediv/emod",
             "mirror runs are budgeted by the effective precision eff = p (for ln / ln_1p / the base of powf outside base 2: "
             "max(p, |log_B x|), the digit count of 2^s that FBig::from hands on as a precision): every case up to "
